@@ -42,7 +42,11 @@ def plans(prop, tier):
              prof(23, nops=m, pool=60, maxlen=2, alpha=8, mode="mix", pput=25, prem=15, pget=15, pscan=30, piscan=15, pmem=0, pprobe=70, dumpevery=0),
              prof(24, nops=m, pool=40, maxlen=2, alpha=3, mode="linksonly", pput=30, prem=12, pget=13, pscan=30, piscan=15, pmem=0, pprobe=80, dumpevery=0),
              prof(26, nops=m + 200, pool=120, maxlen=3, alpha=8, mode="deep", pput=45, prem=8, pget=10, pscan=25, piscan=12, pmem=0, pprobe=70, dumpevery=0),
-             prof(25, nops=m, pool=60, maxlen=3, alpha=4, mode="linksonly", pput=30, prem=12, pget=13, pscan=30, piscan=15, pmem=0, pprobe=80, dumpevery=0)]
+             prof(25, nops=m, pool=60, maxlen=3, alpha=4, mode="linksonly", pput=30, prem=12, pget=13, pscan=30, piscan=15, pmem=0, pprobe=80, dumpevery=0),
+             # reads whose two endpoints lie below one 8- / 16-byte prefix that has no entry (gap between two slices), probes into the gap
+             prof(28, nops=m, pool=40, maxlen=2, alpha=3, mode="mix", pput=25, prem=10, pget=10, pscan=25, piscan=30, pmem=0, pprobe=85, dumpevery=0, ppair=45),
+             # storages that are emptied completely again and again: reads of the kept, deleted root border must still collect it
+             prof(27, nops=m, pool=12, maxlen=2, alpha=3, mode="mix", pput=22, prem=8, pget=15, pscan=28, piscan=27, pmem=0, pprobe=60, dumpevery=0, pdrain=45)]
         M = ["MC_Tree_scan5.cfg"] if q else ["MC_Tree_scan5.cfg", "MC_Tree_scan5b.cfg", "MC_Tree_scan6.cfg"]
     elif prop == "C08":
         on = ["C08"]
@@ -118,6 +122,8 @@ def main(prop, tier):
         mix = {"C02": dict(pput=45, prem=20, pget=27, pscan=0, piscan=0), "C03": dict(pput=40, prem=12, pget=0, pscan=40, piscan=0),
                "C10": dict(pput=40, prem=12, pget=0, pscan=0, piscan=40)}[prop]
         MP = [prof(71, nops=n, pool=30, pddl=8, **mix), prof(72, nops=n, pool=60, maxlen=2, alpha=8, pddl=8, **mix)]
+        if prop == "C02":   # scripted: a full border (layers 0-2) receives a key whose remaining length is 256*k + r, above all its entries
+            MP.append(prof(75, nops=560, pool=20, pddl=4, longsplit=1, **dict(mix, pget=max(mix["pget"], 17))))
         if tier != "quick":
             MP += [prof(73, nops=n, pool=40, maxlen=6, alpha=2, pddl=8, **mix), prof(74, nops=n, pool=25, pddl=8, **mix)]
         seqtrace.run_map_profiles(chk, prop, MP, on)
